@@ -4,6 +4,7 @@ import Orx.GenThms.Slice
 import Orx.GenThms.Vec
 import Orx.GenThms.Arr
 import Orx.GenThms.Range
+import Orx.GenThms.Iter
 /-! # C06 skip_to_end stops the iteration for everyone, permanently -/
 namespace Orx.Props.C06
 open Orx Orx.KS
@@ -63,5 +64,13 @@ theorem source_skip_is_atom_skip (len a b c : Nat) (evs dr) :
     Vec.skip_to_end (vec len) (st c evs dr) = .ok () (st (Atom.skip.next len c) (evs ++ [.swp (.ctr 0) .acqrel c len]) (dr ++ [(min c len, len)])) ∧
     Arr.skip_to_end len (arr len) (st c evs dr) = .ok () (st (Atom.skip.next len c) (evs ++ [.swp (.ctr 0) .acqrel c len]) (dr ++ [(min c len, len)])) :=
   ⟨slice_early_exit len c evs dr, range_early_exit a b c evs dr, vec_early_exit len c evs dr, arr_early_exit len c evs dr⟩
+
+
+open Orx.RS Orx.Gen Orx.GenThms in
+/-- **`skip_to_end` of the wrapper as in the source**: one `SeqCst` store of `true` into `completed`, nothing else — in
+particular neither counter is written (the repaired defect D2 stored `usize::MAX` into the ticket dispenser) -/
+theorem source_iter_skip (init : Option Nat) (R Y : Nat) (C : Bool) (evs : List Ev) :
+    Iter.skip_to_end (iter init) (ist R Y C evs) = .ok () (ist R Y true (evs ++ [.st .C .seqcst 1])) :=
+  iter_skip_to_end init R Y C evs
 
 end Orx.Props.C06
